@@ -38,6 +38,15 @@ func (ex *Executor) binop(st *State, op token.Token, a, b Value, TA, TB types.Ty
 		case token.SUB:
 			return tt.Bin(OpSub, x, y)
 		case token.MUL:
+			if ex.opt.UFMul && w == 64 {
+				// over-approximation: multiplication by the hash prime as an uninterpreted function
+				if y.IsConst() && y.val == 9920624304325388887 && !x.IsConst() {
+					return tt.UF("mulprime", x, 64)
+				}
+				if x.IsConst() && x.val == 9920624304325388887 && !y.IsConst() {
+					return tt.UF("mulprime", y, 64)
+				}
+			}
 			return tt.Bin(OpMul, x, y)
 		case token.QUO, token.REM:
 			ex.require(st, tt.Not(tt.Eq(y, tt.Const(w, 0))), "integer divide by zero")
